@@ -327,6 +327,68 @@ func catalogue() []corruption {
 			(*r.as)[0].Attestation1.AttestingIndices = append(append(common.CommitteeIndices(nil), ix...), ix[len(ix)-1])
 			return true
 		}},
+		{"attester-slashing/duplicate-index-signed-twice", true, func(s *sim, r *blockRefs, pre *stateBox) bool {
+			// a non-decreasing index list with a repeated validator whose signature is aggregated twice:
+			// the BLS check passes, only the strictly-sorted rule rejects it
+			if uint64(len(*r.as)) >= uint64(s.w.spec.MAX_ATTESTER_SLASHINGS) {
+				return false
+			}
+			epoch := s.w.epochOf(uint64(*r.slot))
+			for v := 0; v < s.cfg.Validators; v++ {
+				if s.w.slashedV[v] || common.ValidatorIndex(v) == *r.proposer || !s.w.slashable(pre.st, v, epoch) {
+					continue
+				}
+				f, _ := pre.st.Fork()
+				which := s.frng.Intn(2)
+				mk := func(tag uint64, dup bool) phase0.IndexedAttestation {
+					src, _ := pre.st.CurrentJustifiedCheckpoint()
+					d := phase0.AttestationData{Slot: *r.slot, BeaconBlockRoot: fnvRoot("dup-as", tag), Source: src, Target: common.Checkpoint{Epoch: common.Epoch(epoch), Root: fnvRoot("dup-as-t", tag)}}
+					dom := domainFor(f, s.w.gvr, common.DOMAIN_BEACON_ATTESTER, common.Epoch(epoch))
+					ix := common.CommitteeIndices{common.ValidatorIndex(v)}
+					keys := []int{v}
+					if dup {
+						ix = append(ix, common.ValidatorIndex(v))
+						keys = append(keys, v)
+					}
+					return phase0.IndexedAttestation{AttestingIndices: ix, Data: d, Signature: s.w.keys.signAgg(keys, signingRoot(d.HashTreeRoot(tree.GetHashFn()), dom))}
+				}
+				*r.as = append(append(phase0.AttesterSlashings(nil), *r.as...), phase0.AttesterSlashing{Attestation1: mk(uint64(*r.slot)*4+1, which == 0), Attestation2: mk(uint64(*r.slot)*4+2, which == 1)})
+				return true
+			}
+			return false
+		}},
+		{"exit/too-young", true, func(s *sim, r *blockRefs, pre *stateBox) bool {
+			// a correctly signed exit of a validator that has not been active for SHARD_COMMITTEE_PERIOD epochs
+			if uint64(len(*r.exits)) >= uint64(s.w.spec.MAX_VOLUNTARY_EXITS) || s.w.spec.SHARD_COMMITTEE_PERIOD == 0 {
+				return false
+			}
+			epoch := s.w.epochOf(uint64(*r.slot))
+			vals, _ := pre.st.Validators()
+			n, _ := vals.ValidatorCount()
+			for v := uint64(0); v < n; v++ {
+				val, _ := vals.Validator(common.ValidatorIndex(v))
+				ac, _ := val.ActivationEpoch()
+				ex, _ := val.ExitEpoch()
+				sl, _ := val.Slashed()
+				ki := s.w.keyOf(pre.st, common.ValidatorIndex(v))
+				if sl || ki < 0 || uint64(ex) != farFuture || uint64(ac) > epoch || epoch >= uint64(ac)+uint64(s.w.spec.SHARD_COMMITTEE_PERIOD) || common.ValidatorIndex(v) == *r.proposer {
+					continue
+				}
+				f, _ := pre.st.Fork()
+				exm := phase0.VoluntaryExit{Epoch: common.Epoch(epoch), ValidatorIndex: common.ValidatorIndex(v)}
+				dom := domainFor(f, s.w.gvr, common.DOMAIN_VOLUNTARY_EXIT, common.Epoch(epoch))
+				if s.w.forkIndexAt(epoch) >= 4 {
+					dom = computeDomain(common.DOMAIN_VOLUNTARY_EXIT, s.w.spec.CAPELLA_FORK_VERSION, s.w.gvr)
+				}
+				*r.exits = append(append(phase0.VoluntaryExits(nil), *r.exits...), phase0.SignedVoluntaryExit{Message: exm, Signature: s.w.keys.sign(ki, signingRoot(exm.HashTreeRoot(tree.GetHashFn()), dom))})
+				el, _ := val.ActivationEligibilityEpoch()
+				if el < ac {
+					s.res.Stat("probe_young_exit_of_validator_activated_after_genesis", 1)
+				}
+				return true
+			}
+			return false
+		}},
 		{"attester-slashing/signature", true, func(s *sim, r *blockRefs, _ *stateBox) bool {
 			if len(*r.as) == 0 {
 				return false
@@ -614,7 +676,7 @@ func (s *sim) byzantine(parent *blockRec, blk *blockRec) {
 	// rare-state corruptions are tried first whenever the state allows them
 	var rare []corruption
 	for _, c := range cat {
-		if strings.HasSuffix(c.name, "of-withdrawable-validator") {
+		if strings.HasSuffix(c.name, "of-withdrawable-validator") || c.name == "exit/too-young" {
 			rare = append(rare, c)
 		}
 	}
